@@ -80,7 +80,11 @@ class ValueGen:
         if isinstance(t, GraphQLList):
             n = 0 if minimal else rng.randrange(0, 4)
             self.feats.add("value.list%d" % min(n, 2))
-            return [self.value(t.of_type, depth + 1, minimal) for _ in range(n)]
+            items = [self.value(t.of_type, depth + 1, minimal) for _ in range(n)]
+            if items and not isinstance(t.of_type, GraphQLNonNull) and rng.random() < 0.25:
+                items[0] = None  # a list that starts with null and continues with values
+                self.feats.add("value.list_leading_null")
+            return items
         if isinstance(t, GraphQLInputObjectType):
             out = {}
             for fname, f in t.fields.items():
